@@ -34,6 +34,9 @@ func (rs *ReedSolomonEncoder) getPolynomial(degree int) *GFPoly {
 }
 
 func (rs *ReedSolomonEncoder) Encode(data []int, eccCount int) []int {
+	if eccCount == 0 {
+		return []int{}
+	}
 	generator := rs.getPolynomial(eccCount)
 	info := NewGFPoly(rs.gf, data)
 	info = info.MultByMonominal(eccCount, 1)
